@@ -460,3 +460,31 @@ func EnumRulesFile(pkg, goName string, v EnumRuleVariant) *spec.File {
 	}}}
 	return f
 }
+
+// ManyServices: n services spread round-robin over `files` files (each file its own proto and Go package,
+// so nothing collides), every service with a GET route with a path variable, a query parameter and a POST.
+func ManyServices(pkg, goName string, n, files int) []*spec.File {
+	var out []*spec.File
+	for fi := 0; fi < files; fi++ {
+		fp, gn := pkg, goName
+		if files > 1 {
+			fp, gn = fmt.Sprintf("%s.f%d", pkg, fi), fmt.Sprintf("%sf%d", goName, fi)
+		}
+		f := &spec.File{Path: "misc/" + gn + "/services.proto", Package: fp, GoImport: "lab/gen/" + gn, GoName: gn}
+		f.Messages = []*spec.Message{
+			{Name: "GetReq", Fields: []*spec.Field{spec.F("item_id", 1, spec.String), spec.F("view", 2, spec.String).Q("view")}},
+			{Name: "PutReq", Fields: []*spec.Field{spec.F("label", 1, spec.String), spec.F("rank", 2, spec.Int32)}},
+			{Name: "Item", Fields: []*spec.Field{spec.F("item_id", 1, spec.String), spec.F("label", 2, spec.String)}},
+		}
+		out = append(out, f)
+	}
+	for i := 0; i < n; i++ {
+		f := out[i%files]
+		name := fmt.Sprintf("Svc%c%dService", 'A'+rune(i), i)
+		f.Services = append(f.Services, &spec.Service{Name: name, BasePath: spec.S(fmt.Sprintf("/s%d", i)), Methods: []*spec.Method{
+			{Name: "GetItem", In: "." + f.Package + ".GetReq", Out: "." + f.Package + ".Item", HTTP: &spec.HTTP{Path: "/items/{item_id}", Verb: 1}},
+			{Name: "PutItem", In: "." + f.Package + ".PutReq", Out: "." + f.Package + ".Item", HTTP: &spec.HTTP{Path: "/items", Verb: 2}},
+		}})
+	}
+	return out
+}
